@@ -707,7 +707,11 @@ func genRelCase(focus string) func(t *rapid.T) RelCase {
 					rt.Vote = VoteSpec{Kind: rapid.IntRange(0, numVoteKinds-1).Draw(t, "oeKind"), BodyArg: rapid.IntRange(0, 7).Draw(t, "oeArg"), BitmapBytes: -1, Class: "honest-all"}
 				case "vote":
 					rt.Vote = genVoteSpec(t, c.N)
-					if rapid.IntRange(0, 2).Draw(t, "honestBias") > 0 && (focus != "C01" || rapid.Bool().Draw(t, "honestBias2")) {
+					if focus == "C02" && rapid.IntRange(0, 9).Draw(t, "permuteIds") == 0 {
+						// a genuine vote over a two-withdrawal batch, delivered with the ids in the other order
+						rt.Vote.Kind, rt.Vote.Class, rt.Vote.Tamper = kindProcess, "tamper", 2
+					}
+					if rt.Vote.Tamper == 0 && rapid.IntRange(0, 2).Draw(t, "honestBias") > 0 && (focus != "C01" || rapid.Bool().Draw(t, "honestBias2")) {
 						rt.Vote.Class, rt.Vote.Marks, rt.Vote.Signers = "honest-all", nil, nil // resolved against the live group
 						rt.Vote.BitmapBytes = -1
 						rt.Vote.DocChain, rt.Vote.DocSeqDelta, rt.Vote.DocEpDelta, rt.Vote.DocMethod, rt.Vote.DocProposer = false, 0, 0, 0, 0
